@@ -1,6 +1,8 @@
 import ALV.Common.Json
 import ALV.Model.C12
 import ALV.Spec.C12
+import ALV.Model.C12Call
+import ALV.Spec.C12Call
 namespace ALV.Driver.C12
 open ALV ALV.J ALV.C12
 
@@ -90,6 +92,78 @@ def obsToJson (m s : Obs GRat) : Json :=
   | .bool bm, .bool bs => Json.mkObj [("model", Json.bool bm), ("spec", Json.bool bs)]
   | .out ym, .out ys => Json.mkObj [("model", optJson (arr gToJson) ym), ("spec", optJson (arr gToJson) ys)]
   | _, _ => Json.mkObj [("stuck", Json.bool true)]
+
+
+/-! ### the call -/
+
+def getKind (s : String) : Except String Kind :=
+  match s with
+  | "scalar" => pure .scalar | "str" => pure .str | "someGen" => pure .someGen | "stream" => pure .stream
+  | "seq" => pure .seq | "hash" => pure .hash | "chain" => pure .chain | "emptyOnly" => pure .emptyOnly
+  | "noCtor" => pure .noCtor
+  | k => throw s!"C12 call: unknown kind {k}"
+
+def kindStr : Kind → String
+  | .scalar => "scalar" | .str => "str" | .someGen => "someGen" | .stream => "stream" | .seq => "seq"
+  | .hash => "hash" | .chain => "chain" | .emptyOnly => "emptyOnly" | .noCtor => "noCtor"
+
+def getElem (j : Json) : Except String (Elem GRat) :=
+  match j with
+  | Json.str "bad" => pure .bad
+  | Json.str "nested" => pure .nested
+  | Json.str "obj" => pure .obj
+  | _ => do pure (.num (← getG j))
+
+/-- `"self"` = the filter object; otherwise `{"kind": …, "self": elem, "items": [elem, …]}` -/
+def getArg (j : Json) : Except String (Arg GRat) :=
+  match j with
+  | Json.str "self" => pure Arg.filt
+  | _ => do
+    let k ← getKind (← getStr (← field j "kind"))
+    let self ← match optField j "self" with
+      | none => pure Elem.nested
+      | some v => getElem v
+    let items ← match optField j "items" with
+      | none => pure []
+      | some v => getList getElem v
+    pure ⟨k, self, items⟩
+
+def getKw (j : Json) : Except String (String × Arg GRat) :=
+  match j with
+  | Json.arr [k, v] => do pure (← getStr k, ← getArg v)
+  | _ => throw "C12 call: bad keyword entry"
+
+def errStr : PyErr → String
+  | .typeError => "TypeError" | .valueError => "ValueError" | .keyError => "KeyError"
+  | .zeroDivisionError => "ZeroDivisionError"
+
+def nextToJson : NextObs GRat → Json
+  | .item r => Json.mkObj [("item", respToJson r)]
+  | .exc e => Json.mkObj [("exc", Json.str (errStr e))]
+  | .stop => Json.str "stop"
+
+def outToJson (reads : Nat) : Out GRat → Json
+  | .value r => Json.mkObj [("value", respToJson r)]
+  | .raised e => Json.mkObj [("err", Json.str (errStr e))]
+  | .lazy k outs => Json.mkObj [("lazy", Json.str (kindStr k)), ("reads", arr nextToJson (genReads reads outs))]
+  | .cast k vals => Json.mkObj [("cast", Json.str (kindStr k)), ("vals", arr respToJson vals)]
+  | .unmodelled => Json.mkObj [("unmodelled", Json.bool true)]
+
+def exceptToJson : Except PyErr (List GRat) → Json
+  | .error e => Json.mkObj [("err", Json.str (errStr e))]
+  | .ok l => arr gToJson l
+
+/-- an argument of `dft(...)`: `"blk"`, `"freqs"` (the two objects of the request), `true`/`false`
+    (the truth value of the object passed as `normalize`), `"other"` -/
+inductive DftV where
+  | blk | freqs | flag (b : Bool) | other
+
+def getDftV (j : Json) : Except String DftV :=
+  match j with
+  | Json.str "blk" => pure .blk
+  | Json.str "freqs" => pure .freqs
+  | Json.bool b => pure (.flag b)
+  | _ => pure .other
 
 def handle (entry : String) (j : Json) : Except String Json := do
   match entry with
@@ -188,6 +262,48 @@ def handle (entry : String) (j : Json) : Except String Json := do
     let m := histModel (fun w => w) heap ops
     let s := histSpec (fun w => w) heap ops
     pure <| Json.mkObj [("steps", Json.arr (List.zipWith obsToJson m s))]
+  | "call" =>
+    -- t.freq_response(*args, **kwargs): every call shape, every kind of frequency object
+    let t ← getBank (← field j "tree")
+    let args ← getList getArg (← field j "args")
+    let kw ← getList getKw (← field j "kwargs")
+    let reads ← getNat (fieldD j "reads" (Json.int 0))
+    pure <| Json.mkObj [
+      ("model", outToJson reads (freqCall (fun w => w) t args kw)),
+      ("spec", outToJson reads (freqCallSpecFull (fun w => w) t args kw)),
+      ("bound", Json.bool (bindParams ["self", "freq"] args kw).isSome),
+      -- where the wrapper finds the frequency object
+      ("where", Json.str (if 1 < args.length then "pos" else if (kwGet "freq" kw).isSome then "kw" else "none")),
+      ("ctor_model", Json.bool (bankCtor false t)),
+      ("ctor_spec", Json.bool (bankCtor true t))]
+  | "dftcall" =>
+    -- dft(*args, **kwargs): python's binding, the default of `normalize`, kinds of block / frequency objects
+    let blk ← getList getG (← field j "blk")
+    let bk ← match ← getStr (← field j "bk") with
+      | "sized" => pure BlkKind.sized
+      | "once" => pure BlkKind.once
+      | k => throw s!"C12 dftcall: unknown block kind {k}"
+    let ws ← match optField j "ws" with
+      | none => pure none
+      | some v => do pure (some (← getList getG v))
+    let args ← getList getDftV (← field j "args")
+    let kw ← getList (fun e => match e with
+      | Json.arr [k, v] => do pure (← getStr k, ← getDftV v)
+      | _ => throw "C12 dftcall: bad keyword entry") (← field j "kwargs")
+    match bindDft args kw with
+    | none =>
+      let e := Json.mkObj [("err", Json.str "TypeError")]
+      pure <| Json.mkObj [("model", e), ("spec", e), ("bound", Json.bool false)]
+    | some (.blk, .freqs, n) =>
+      let norm ← match n with
+        | none => pure none
+        | some (.flag b) => pure (some b)
+        | some _ => throw "C12 dftcall: normalize must be a truth value"
+      pure <| Json.mkObj [
+        ("model", exceptToJson (dftCall (fun (w : GRat) n => pw w n) bk blk ws norm)),
+        ("spec", exceptToJson (dftCallSpec bk blk ws norm)),
+        ("bound", Json.bool true)]
+    | some _ => throw "C12 dftcall: blk / freqs must be bound to the block / the frequencies"
   | _ => throw s!"C12: unknown entry {entry}"
 
 end ALV.Driver.C12
